@@ -52,6 +52,11 @@ def jobs(tier):
         js.append(l2_job("C03.errno.NF%d.m%d.fixed%d" % (nf, full, e), "l2/c03_errno.c",
                          defines={"NF": nf, "READY_MASK": full, "ONESHOT": 0, "DESC": 0, "ERRNO_FIXED": e},
                          symbolic=["quit code (uint8)"], bounds="errno=%d concrete (regression companion)" % e, unwind=13))
+    for mask in ((full,) if tier == "quick" else (1, full)):
+        js.append(l2_job("C03.errno.NF%d.m%d.hup" % (nf, mask), "l2/c03_errno.c",
+                         defines={"NF": nf, "READY_MASK": mask, "ONESHOT": 0, "DESC": 0, "VF_HUP": 1},
+                         symbolic=["quit code (uint8)", "errno left by callbacks (int)"],
+                         bounds="ready descriptors reported as EPOLLIN|EPOLLHUP (peer wrote and hung up)", unwind=13))
     for err, nm in ((4, "eintr"), (11, "eagain"), (9, "ebadf")):
         js.append(l2_job("C03.pollfail.%s" % nm, "l2/c03_pollfail.c", defines={"PERR": err},
                          symbolic=["quit code (uint8)", "errno left by callbacks (int)"],
@@ -67,6 +72,10 @@ def jobs(tier):
             js.append(l2_job("C03.oneshot.queued%d.resub%d" % (nq, resub), "l2/c03_oneshot_queue.c", defines={"RESUB": resub, "NQ": nq},
                              symbolic=["errno left by callbacks (int)"],
                              bounds="%d matching messages queued before the one-shot subscriber is served%s" % (nq, ", handler subscribes again" if resub else ""), unwind=13))
+    for route in (0, 1, 2):
+        js.append(l2_job("C03.count.route%d" % route, "l2/c03_count.c", defines={"ROUTE": route},
+                         symbolic=["quit code (uint8)", "errno left by callbacks (int)"],
+                         bounds="a module leaves while PAUSED (route %d), another keeps RUNNING" % route, unwind=13))
     js.append(l2_job("C03.oneshot.regex", "l2/c03_oneshot_rx.c", symbolic=["errno left by callbacks (int)"],
                      bounds="one-shot subscription on a regular expression, two matching publishes", unwind=13))
     return js
